@@ -300,7 +300,7 @@ def check(ctx: Ctx) -> None:
     tg = model.fi(MRQ, "_calculate_tau_gamma")
     R_, Y_, n_, Wd = sp.symbols("R Y n W", positive=True)
     ti2 = RepoInterp(model)._interp(tg, 0)
-    env2 = {"R": R_, "Y": Y_, "n": n_, "W": Wd, "tau": TAU, "pi": sp.pi}
+    env2 = {"R": R_, "Y": Y_, "n": n_, "W": Wd, "tau": TAU, "pi": sp.pi, "parameters": {"R": R_, "Y": Y_, "C": Y_, "n": n_}}
     tau0 = None
     branches: List[sp.Expr] = []
     for n in walk_ordered(tg.node):
@@ -326,6 +326,18 @@ def check(ctx: Ctx) -> None:
                 branches.append(sp.sympify(ti2.ev(D().visit(ast.parse(norm(v), mode="eval").body), {**env2, "ln": None} if False else env2)))
             except Unsupported as e:
                 raise AnalysisError(f"_calculate_tau_gamma: γ branch outside the term fragment: {e}")
+    # the closed form of the (RQ) distribution degenerates to an unsampled delta for n → 1: it may only be used under a
+    # guard that keeps n away from 1 (the Gaussian replacement handles that case)
+    from ..cfg import dominating_conditions as _dc, flatten_conditions as _fc
+    for aug_ in walk_ordered(tg.node):
+        if isinstance(aug_, ast.AugAssign) and norm(aug_.target) == "gamma" and "cosh" in norm(aug_.value):
+            conds_ = [(norm(c_), pol_) for c_, pol_ in _fc(_dc(aug_))]
+            guarded = any(("isclose" in t_ and "n" in t_ and "1" in t_ and not pol_) or ("abs(" in t_ and "n" in t_ and ("<" in t_ or ">" in t_)) for t_, pol_ in conds_)
+            ctx.instance("R13.3", "(RQ) closed form only away from n = 1")
+            if guarded:
+                ctx.ok()
+            else:
+                ctx.violation("R13.3", "_calculate_tau_gamma:rq-guard", MRQ, aug_, f"the (RQ) closed form is used under {conds_ or 'no condition'}: for an exponent n close to 1 it collapses to a delta between the samples, so the element's area is lost")
     if tau0 is None or len(branches) != 2:
         raise AnalysisError(f"_calculate_tau_gamma: τ₀ or the two γ branches not found ({len(branches)})")
     ctx.instance("R13.3", f"τ₀ = {tau0}")
@@ -378,6 +390,24 @@ def check(ctx: Ctx) -> None:
     else:
         ctx.violation("R13.3", "_calculate_tau_gamma:stale-parameters", MRQ, ups[0],
                       f"the dictionary {D_} that collects an (RQ)/(RC) pair's values is not re-created for every pair: an (RC) pair that follows an (RQ) pair is evaluated with the previous pair's Y and n")
+    # numerical helpers of the DRT methods do not write into the arrays they are given: the regularisation searches call
+    # them repeatedly with trial parameters, and a helper that updates its argument in place makes each call depend on the
+    # previous ones (alias-aware: through asarray/views/slices as well)
+    from ..effects import array_param_writes
+    n_fn = 0
+    for q, f_ in sorted(model.funcs.items()):
+        if not f_.module.startswith("pyimpspec.analysis.drt"):
+            continue
+        n_fn += 1
+        for p_, st_, how_ in array_param_writes(f_.node):
+            ctx.instance("R13.1", f"{f_.qual}: array argument {p_} is not written")
+            ctx.violation("R13.1", f"{f_.module.split('.')[-1]}:{f_.qual}:{p_}:written-in-place", f_.module, st_,
+                          f"{f_.qual} {how_}, i.e. into the caller's array `{p_}`: repeated calls (λ search, model-order search) accumulate instead of starting from the same matrix")
+    control = sum(len(array_param_writes(f_.node)) for q, f_ in model.funcs.items() if f_.module.startswith("pyimpspec.analysis.kramers_kronig"))
+    ctx.instance("R13.1", f"{n_fn} DRT functions write into none of their array arguments (positive control: {control} such writes are seen in the Kramers-Kronig matrix fillers, which are output parameters by design)")
+    if n_fn < 40 or control < 10:
+        raise AnalysisError(f"array-argument rule: {n_fn} functions / {control} control writes (floors 40 / 10)")
+    ctx.ok()
     # R13.4 degrees: Z→cZ means R→cR, Y→Y/c; f→kf means τ→τ/k, Y→Y/k^n
     c, k = sp.symbols("c k", positive=True)
     for name, term in (("(RC) γ", gauss), ("(RQ) γ", rq)):
